@@ -37,6 +37,7 @@ type telem struct {
 	at    types.AttestationElement
 	ci    types.ChainIndexElement
 	spent bool
+	ver   int // number of blocks (applied and not reverted) that revised the element: the version in the model's leaf tokens
 }
 
 func (t *telem) se() *types.StateElement {
@@ -128,10 +129,23 @@ func (cl *chainClient) apply(c *vlib.Ctx, au consensus.ApplyUpdate) {
 		}
 	}
 	for _, d := range au.FileContractElementDiffs() {
-		if !d.Created || d.Revision != nil || d.Resolved {
-			c.Fatal("chain: unexpected v1 contract diff")
+		// a contract formed by the block: the diff carries it as last revised in the block, and resolved if it was proved in it
+		if d.Created {
+			cl.add(&telem{k: kFileContract, fc: d.FileContractElement.Copy(), spent: d.Resolved}, types.Hash256(d.FileContractElement.ID))
+			continue
 		}
-		cl.add(&telem{k: kFileContract, fc: d.FileContractElement.Copy()}, types.Hash256(d.FileContractElement.ID))
+		idx, ok := cl.byID[types.Hash256(d.FileContractElement.ID)]
+		if !ok {
+			c.Fatal("chain: v1 contract diff for an untracked element")
+		}
+		t := cl.elems[idx]
+		if d.Revision != nil {
+			t.fc.FileContract = *d.Revision
+			t.ver++
+		}
+		if d.Resolved {
+			t.spent = true
+		}
 	}
 	for _, d := range au.V2FileContractElementDiffs() {
 		var t *telem
@@ -145,6 +159,9 @@ func (cl *chainClient) apply(c *vlib.Ctx, au consensus.ApplyUpdate) {
 		}
 		if d.Revision != nil {
 			t.v2.V2FileContract = *d.Revision
+			if !d.Created {
+				t.ver++
+			}
 		}
 		if d.Resolution != nil {
 			t.spent = true
@@ -184,10 +201,25 @@ func (cl *chainClient) revert(c *vlib.Ctx, ru consensus.RevertUpdate, numLeaves 
 			cl.elems[idx].spent = false
 		}
 	}
+	for _, d := range ru.FileContractElementDiffs() {
+		if idx, ok := cl.byID[types.Hash256(d.FileContractElement.ID)]; ok && !d.Created {
+			t := cl.elems[idx]
+			t.fc.FileContract = d.FileContractElement.FileContract // the contract as it was before the block
+			if d.Revision != nil {
+				t.ver--
+			}
+			if d.Resolved {
+				t.spent = false
+			}
+		}
+	}
 	for _, d := range ru.V2FileContractElementDiffs() {
 		if idx, ok := cl.byID[types.Hash256(d.V2FileContractElement.ID)]; ok && !d.Created {
 			t := cl.elems[idx]
 			t.v2.V2FileContract = d.V2FileContractElement.V2FileContract // the contract as it was before the block
+			if d.Revision != nil {
+				t.ver--
+			}
 			if d.Resolution != nil {
 				t.spent = false
 			}
